@@ -398,7 +398,7 @@ def run(ck):
     rm = runner.run_batch(mexe, scripts) if mexe else {}
     ndiff = 0
     for (sid, d, good, c, f, steps, recv), (_, lines) in zip(cases, scripts):
-        ck.evaluations += 1
+        ck.evaluations += sum(1 for l in lines if l.split()[0] in ("rx", "rx2", "run", "run2"))     # compared steps
         ck.count("dir_" + d)
         o = rc.get(sid, dict(out=[], crash=None))
         cls = ".".join(sid.split(".")[:2]) + ("." + sid.split(".")[3] if ".noise." in sid else "")
@@ -423,7 +423,7 @@ def run(ck):
             ck.fail("input", "oracle:%s:%s" % (d, clause), "%s (scenario %s)" % (text, sid), {"script": lines, "observed": [l[:160] for l in o["out"] if l[:2] in ("cb", "st")][-12:]})
         if any(l.startswith("tx c0 7d") or l.startswith("cb segment") for l in o["out"]):
             ck.nontriv((d, cls, c.cot, c.ca, c.ioa, c.mx, tuple(f.lens) if ".noise." not in sid else ()))
-        if ck.evaluations % 211 == 1:
+        if len(ck.samples) < 6 and (sid.endswith(".0") or ".sz.223.249" in sid or "callsec-neg" in sid):
             ck.sample({"scenario": sid, "file": f.lens, "max_asdu": c.mx, "trace_tail": [l[:100] for l in o["out"][-4:]]})
     ck.extra["disagreements"] = ndiff
     ck.extra["exhaustive"] = False
